@@ -715,10 +715,18 @@ class SymTagSet(object):
         return not (bool(r))
 
     def __len__(self):
+        # the number of tags present: membership of each tag is decided (forks) - a lazy set must not count its
+        # conditional elements as present
         n = 0
-        for _ in self:
-            n += 1
+        for t in self.universe:
+            if self.member.get(t, False):
+                n += 1
         return n
+
+    def sx_len(self):
+        """len() without forking: a symbolic integer (used by the call lifting for len(tagset))."""
+        terms = [z3.If(zbool(m), 1, 0) for m in self.member.values()]
+        return SymInt(z3.Sum(terms)) if terms else 0
 
     def __repr__(self):
         return "<SymTagSet %s>" % (self.universe,)
